@@ -24,7 +24,8 @@ theorem shapes :
     Gen.Fetch.validateBeforeRequest = true ∧ Gen.Fetch.manualRedirects = true ∧ Gen.Fetch.onlyNextUrlAssigned = true ∧
     Gen.Fetch.redirectStepRecognised = true ∧ Gen.Fetch.redirectCheckOrder = ["limit", "location", "target"] ∧
     Gen.Fetch.autoDecompressOff = true ∧ Gen.Fetch.statusCheckRecognised = true ∧ Gen.Fetch.chunkCheckRecognised = true ∧
-    Gen.Fetch.rangesRecognised = true ∧ Gen.Fetch.retryRecognised = true ∧ Gen.Fetch.redactRecognised = true ∧
+    Gen.Fetch.rangesRecognised = true ∧ Gen.Fetch.retryRecognised = true ∧ Gen.Fetch.firstAttemptValidated = true ∧
+    Gen.Fetch.retryValidated = true ∧ Gen.Fetch.redactRecognised = true ∧
     Gen.Fetch.chunkRangeCheckRecognised = true ∧ Gen.Fetch.parallelNonEmpty = true ∧ Gen.Fetch.contentRangeGroup1 = true := by
   decide
 
@@ -441,10 +442,15 @@ theorem fetchWithProbe_trace {σ : Type} (env : Env) (o : Origin σ) (cfg : Cfg)
   simp only
   split <;> exact h
 
+/-- both attempts of `fetch_url` run with the caller's validator (extracted from the two call sites) -/
+theorem firstAttempt_env (env : Env) : withValidator env Gen.Fetch.firstAttemptValidated = env := rfl
+theorem retry_env (env : Env) : withValidator env Gen.Fetch.retryValidated = env := rfl
+
 theorem fetchUrl_trace {σ : Type} (env : Env) (o : Origin σ) (cfg : Cfg) (sched1 sched2 : List Nat) (s : σ) (url : Url) :
     TraceOK env cfg (fetchUrl env o cfg sched1 sched2 s url).tr := by
   have h := fetchWithProbe_trace env o cfg sched1 s url
   unfold fetchUrl
+  rw [firstAttempt_env, retry_env]
   simp only
   split
   · split
@@ -744,6 +750,7 @@ theorem fetchUrl_ok {σ : Type} (env : Env) (o : Origin σ) (cfg : Cfg) (sched1 
     (bs : Bytes) (h : (fetchUrl env o cfg sched1 sched2 s url).val = .ok bs) :
     ∃ sched s', (fetchWithProbe env o cfg sched s' url).val = .ok bs := by
   unfold fetchUrl at h
+  rw [firstAttempt_env, retry_env] at h
   simp only at h
   split at h
   · split at h
